@@ -224,7 +224,7 @@ def tagrefs(families, names=None, weight_foreign=3):
     fams = st.sampled_from(families)
     py = st.tuples(st.just("py"), forms, fams, names)
     pyval = st.tuples(st.just("py"), forms, st.sampled_from(VALUE_TAGS), st.just(""))
-    other = st.sampled_from([("local", "!foo"), ("local", "!python/object:os.system"), ("local", "!app-c"), ("local", "!app-m/x"),
+    other = st.sampled_from([("local", "!foo"), ("local", "!str"), ("local", "!seq"), ("local", "!map"), ("local", "!python/object:os.system"), ("local", "!app-c"), ("local", "!app-m/x"),
                              ("local", "!app-c2"), ("local", "!app-m2/x"), ("local", "!app-c3"), ("local", "!app-m3/x"), ("local", "!app-d"), ("local", "!app-dm/x"),
                              ("uri", "tag:example.com,2000:x"),
                              ("uri", "tag:yaml.org,2002:python"), ("uri", "tag:yaml.org,2002:python/"),
